@@ -423,6 +423,20 @@ func c08Cleanup(c *core.Ctx) {
 		}
 		for _, cc := range closes {
 			ok = ok && !g.GuardedBy(cc.Loc, gNot(candOpen))
+			// … and whether it is closed depends on nothing but the attempt being concluded here and the candidate itself
+			// (non-nil, open): a test of anything else — the session's own transport, say — leaves an open candidate behind
+			for _, f := range g.Facts() {
+				if !g.EdgeDominates(f.Br.B, f.Edge, cc.Loc) {
+					continue
+				}
+				if concludeWon(true)(ex.unit, f.Br) != 0 || concludeWon(false)(ex.unit, f.Br) != 0 || candOpen(ex.unit, f.Br) != 0 {
+					continue
+				}
+				if cmp, isCmp := ex.unit.BranchCmp(f.Br); isCmp && cmp.Y != nil && core.IsNil(ex.unit.Info(), cmp.Y) && isCandidate(ex.unit, cmp.X) {
+					continue
+				}
+				ok = false
+			}
 		}
 		c.Check(R, keyf("%s$%s/cleanup≺candidate.Close", sockUpgrade, ex.key), ex.unit.Pos(), ok, keyf("cleanup first, then Close on the candidate only (%d other closes), and not on the edge where the candidate is not open", bad))
 	}
